@@ -63,11 +63,11 @@ CHECKS.update({
                      "asked again later, must equal that of a freshly constructed equal retort with an empty normalisation cache."),
     "C12": dict(technique="TLA+ spec Conc.tla (lookup/creation/caching protocol at the grain of shared-state operations) model-checked by TLC "
                           "(safety, hazard invariant, deadlock freedom, termination under fairness; code-as-is and repaired variants); real threads "
-                          "under a baton scheduler with the same yield points: all schedules with bounded preemptions + random; every event log "
-                          "validated by the TLA+ monitor Trace_Conc.tla",
+                          "under a baton scheduler with the same yield points: all schedules with bounded preemptions + random, plus random "
+                          "preemption at source lines of the library (sys.settrace); every event log validated by the TLA+ monitor Trace_Conc.tla",
                 category="model_checking", design_ref="6/C12",
                 note="trusts: preemption only at instrumented yield points (dict operations on the three caches, stub binding, loader entry); "
-                     "CPython dict atomicity; 6 scenarios, 2-3 threads; <= 2 (quick) / <= 3 (thorough) preemptions exhaustively up to a budget",
+                     "line-level preemption is random, not exhaustive; CPython dict atomicity; 8 scenarios, 2-3 threads; <= 2 (quick) / <= 3 (thorough) preemptions exhaustively up to a budget",
                 text="TLC explores every interleaving of 2-3 threads through the protocol model: the repaired protocol is safe and live, the "
                      "code as it is reaches the hazard state (non-vacuity).  The same alphabet drives real threads on the real Retort: all "
                      "schedules with a bounded number of preemptions and random schedules, each followed by calls on nested data and compared "
@@ -136,10 +136,11 @@ CHECKS.update({
     "C17": dict(technique="TLA+ specs Kinds.tla (how each model kind declares a logical field: req / oreq / hasdfl / ctordfl; documented per-kind "
                           "limitations) + Layout.tla (the one kind-independent semantics); TLC checks KindsUniform on every enumerated program "
                           "and emits the programs for the total kinds, TypedDict and SQLAlchemy; each is replayed on real NamedTuple / attrs / "
-                          "pydantic / SQLAlchemy / TypedDict (two spellings) classes with the model as the oracle; converters between all pairs",
+                          "pydantic / SQLAlchemy / TypedDict classes - 7 main declarations and 7 variant spellings (positional, inherited first field, "
+                          "frozen slots, total=False child, renamed columns) - with the model as the oracle; converters between all pairs",
                 category="model_checking", design_ref="6/C17",
                 note="trusts: vf/kinds.py (class statements per kind, executed from source) and the limitations listed in Kinds.tla; dataclass "
-                     "itself is C03; gamma writes defaults as truthy values or as None / falsy values (chosen by program hash)",
+                     "itself is C03; gamma writes defaults as truthy values, as None / falsy values or as factories (chosen by program hash)",
                 text="Uniformity is decided against one oracle: Layout.tla does not know the kind except through the four field attributes of "
                      "Kinds.tla, KindsUniform (TLC) shows that paths, refusals and probe outcomes coincide across kinds up to absent defaults, "
                      "and every program x supporting kind is run on the real library in three debug modes (creation verdicts, every probe, "
